@@ -15,8 +15,8 @@ import (
 
 // Op is one step of a generated program.
 type Op struct {
-	K      string `json:"k"`             // set setr create get getr keys del begin commit rollback | gc gctimer bg drain reopen
-	Tx     int    `json:"tx,omitempty"`  // transaction slot + 1 (0 = autocommit)
+	K      string `json:"k"`            // set setr create get getr keys del begin commit rollback | gc gctimer bg drain reopen
+	Tx     int    `json:"tx,omitempty"` // transaction slot + 1 (0 = autocommit)
 	Key    string `json:"key,omitempty"`
 	Size   int    `json:"size,omitempty"`
 	ID     uint64 `json:"id,omitempty"`     // write id (unique per program)
